@@ -6,6 +6,7 @@ func init() {
 		[]string{"fault-free workloads (the property speaks about them): error-path leaks are reported as notes only", "finalizers are not relied upon"},
 		func(r *Report) {
 			ruleOwnerFields(r)
+			ruleOwnerOverwrite(r)
 			ruleOwnerLocals(r, []string{"simpledb", "sstables", "wal", "memstore", "recordio", "recordio/proto"})
 			ruleEvict(r)
 			ruleJoin(r)
